@@ -17,3 +17,62 @@ def prefix_cases(tier, binary):
         if c["must"] and not r: bad.append(dict(kind="under", path=c["path"], root=c["root"], what="path %r lies beneath root %r by whole components but the predicate says no (nothing would be removed)" % (c["path"], c["root"])))
         if (not c["may"]) and r: bad.append(dict(kind="over", path=c["path"], root=c["root"], what="path %r is NOT beneath root %r but the predicate says yes (would be removed)" % (c["path"], c["root"])))
     return cases, bad, p
+
+def st(o): return "%s:%s:%s" % (o["type"], o["content"], o["mtime"])
+
+def fileinfo_cases(tier, binary, wd):
+    """C13: FileInfo comparison in the three file-system modes against spec/fn/FileInfoCmp.tla"""
+    cases, p, out = fnlib.enumerate_cases("FileInfoCmp.tla", "FileInfoCmp.cfg")
+    os.makedirs(wd, exist_ok=True)
+    lines = ["fileinfo\t%s\t%s\t%s\t%s\t%s" % (fnlib.hx(c["mode"]), fnlib.hx(st(c["a"])), fnlib.hx(st(c["b"])), fnlib.hx("1" if c["sameIno"] else "0"), fnlib.hx(wd)) for c in cases]
+    rc, res, err = fnlib.run_driver(binary, lines)
+    bad = []
+    for c, o in zip(cases, res):
+        f = o.split()
+        if len(f) != 3: bad.append(dict(kind="driver", case=c, what="driver output %r" % o)); continue
+        verdict = f[0]
+        desc = "%s mode: %s -> %s (%s inode)" % (c["mode"], st(c["a"]), st(c["b"]), "same" if c["sameIno"] else "new")
+        if c["verdict"] != "open" and verdict != c["verdict"]:
+            bad.append(dict(kind="changed-but-equal" if c["verdict"] == "ne" else "untouched-but-unequal", mode=c["mode"], a=st(c["a"]), b=st(c["b"]), sameIno=c["sameIno"],
+                            what="%s: observations must compare %s but compare %s" % (desc, c["verdict"], verdict)))
+        if (c["a"]["type"] != "missing" and f[1] == "m1") or (c["b"]["type"] != "missing" and f[2] == "m2"):
+            bad.append(dict(kind="missing-sentinel", mode=c["mode"], a=st(c["a"]), b=st(c["b"]), sameIno=c["sameIno"], what="%s: the all-zero missing record was produced for an existing object" % desc))
+        if (c["a"]["type"] == "missing" and f[1] != "m1") or (c["b"]["type"] == "missing" and f[2] != "m2"):
+            bad.append(dict(kind="missing-not-reported", mode=c["mode"], a=st(c["a"]), b=st(c["b"]), sameIno=c["sameIno"], what="%s: a missing path was not reported as missing" % desc))
+    return cases, bad, p
+
+def _b(seq): return bytes(seq)
+def codec_cases(tier, binary):
+    """C15: BuildValue / BuildKey wire formats against spec/fn/Codec.tla"""
+    cases, p, out = fnlib.enumerate_cases("Codec.tla", "Codec.cfg")
+    bad = []
+    if p["violated"]: bad.append(dict(kind="spec", what="invariant %s of Codec.tla violated: the specified format itself is not lossless" % p["violated"]))
+    lines = []
+    for c in cases:
+        x = c["x"]
+        if c["what"] == "value":
+            f = ["value", fnlib.hx(x["kind"]), fnlib.hx(_b(x["sig"])), fnlib.hx(str(len(x["infos"])))]
+            for i in x["infos"]:
+                f += [fnlib.hx(_b(i[k])) for k in ("device", "inode", "mode", "size", "sec", "nsec", "sum")]
+            f.append(fnlib.hx(str(len(x["strs"]))))
+            f += [fnlib.hx(_b(s)) for s in x["strs"]]
+        else:
+            f = ["key", fnlib.hx(x["kind"]), fnlib.hx(_b(x["name"])), fnlib.hx(str(len(x["filters"])))] + [fnlib.hx(_b(s)) for s in x["filters"]] + [fnlib.hx(_b(x["data"]))]
+        lines.append("\t".join(f))
+    rc, res, err = fnlib.run_driver(binary, lines)
+    if rc != 0: bad.append(dict(kind="crash", what="fn_driver exit %d: %s" % (rc, err[-300:])))
+    seen = {}
+    for c, o in zip(cases, res):
+        parts = o.split()
+        if len(parts) != 2: bad.append(dict(kind="driver", what="driver output %r for %s" % (o[:80], c["x"]["kind"]))); continue
+        got = bytes.fromhex(parts[0]); want = _b(c["bytes"])
+        desc = "%s %s" % (c["what"], c["x"]["kind"])
+        if got != want:
+            bad.append(dict(kind="bytes-differ", fingerprint="bytes-differ %s" % desc, case=c["x"], what="%s: implementation encodes %s, the format says %s" % (desc, got.hex(), want.hex())))
+        if parts[1] != "rt=ok":
+            bad.append(dict(kind="round-trip", fingerprint="round-trip %s" % desc, case=c["x"], what="%s: decode(encode(x)) does not give x back (fields or re-encoding differ)" % desc))
+        key = (c["what"], got)
+        if key in seen and seen[key] != c["x"]:
+            bad.append(dict(kind="collision", fingerprint="collision %s" % desc, case=c["x"], what="%s: two different %ss encode to the same bytes %s" % (desc, c["what"], got.hex())))
+        seen[key] = c["x"]
+    return cases, bad, p
